@@ -30,7 +30,7 @@ type Site struct {
 	Line      int    `json:"line"`
 	Func      string `json:"func"`
 	FuncFirst bool   `json:"func_first"` // first statement of a function body
-	Global    bool   `json:"global"`     // statement mentions a package-level variable
+	Global    bool   `json:"global"`     // statement mentions a package-level variable or a synchronisation/atomic access
 }
 
 // Descriptor is what the instrumenter reports about the copied tree.
@@ -50,6 +50,13 @@ type Descriptor struct {
 	Rewrite      bool     `json:"rewrite"`       // lock rewriting was enabled for this copy
 	SiteTable    []Site   `json:"-"`
 }
+
+var syncishSelector = map[string]bool{"Load": true, "Store": true, "Swap": true, "CompareAndSwap": true, "Add": true,
+	"Lock": true, "Unlock": true, "RLock": true, "RUnlock": true, "TryLock": true, "Get": true, "Put": true,
+	"LoadOrStore": true, "LoadAndDelete": true, "Delete": true, "Do": true,
+	"LoadUint32": true, "StoreUint32": true, "LoadUint64": true, "StoreUint64": true, "LoadPointer": true, "StorePointer": true,
+	"AddUint32": true, "AddUint64": true, "AddInt32": true, "AddInt64": true, "CompareAndSwapUint32": true, "CompareAndSwapUint64": true,
+	"CompareAndSwapPointer": true, "LoadInt32": true, "LoadInt64": true, "StoreInt32": true, "StoreInt64": true}
 
 type insertion struct {
 	off  int
@@ -177,6 +184,11 @@ func RunOpts(srcDir, dstDir string, rewrite bool) (*Descriptor, error) {
 					return false
 				}
 				if idn, ok := n.(*ast.Ident); ok && pkgVars[dir][idn.Name] {
+					s.Global = true
+				}
+				if sel, ok := n.(*ast.SelectorExpr); ok && syncishSelector[sel.Sel.Name] {
+					// a synchronisation or atomic access: windows between two of these are where
+					// atomicity violations live, so the global-biased strategy prefers to switch here
 					s.Global = true
 				}
 				return true
